@@ -156,6 +156,8 @@ class DimWiseRun:
         if margin is not None:
             kw['margin'] = margin
         self.combi = SA(self.a, self.b, **kw)
+        # the margin the caller asked for (documented default 0.9): the specification is fed with the request, not with what the object stored
+        self.margin_req = 0.9 if margin is None else float(margin)
         from sparseSpACE.ErrorCalculator import ErrorCalculator
 
         class ScriptedError(ErrorCalculator):
@@ -165,7 +167,7 @@ class DimWiseRun:
         self.ec = ScriptedError() if scripted else EC()
         self.started = False
         self.cfg = dict(D=D, lmin=lmin, lmax=lmax, version=version, rebalancing=rebalancing, boundary=boundary,
-                        margin=self.combi.margin, safety=safety, a=list(map(float, self.a)), b=list(map(float, self.b)))
+                        margin=self.margin_req, safety=safety, a=list(map(float, self.a)), b=list(map(float, self.b)))
 
     # ---- driving
     def evaluate(self):
